@@ -275,7 +275,7 @@ func genProgram(rng *vh.Rand) program {
 }
 
 func genC16(r *vh.Runner) {
-	n := r.Pick(480, 16000)
+	n := r.Pick(480, 48000)
 	realTime := os.Getenv("VERIF_REALTIME") == "1"
 	for i := 0; i < n; i++ {
 		rng := vh.NewRand(r.Seed, "c16", i)
